@@ -539,3 +539,21 @@ PROPS["C01"]["level_note"] += (
     "changes - NOT streaming sounds, spatial tracks/listeners or exhausted capacities (those stay with suite system); real components' "
     "chunk-freedom is proved for depth-0 effects at rest only (C01_real_components_chunk_free_partial), the buffer-size invariance of "
     "whole real scenes is checked on kira itself by the bit-exact oracle buffer_size_invariance")
+
+# --- spatial tracks and listeners INSIDE the whole-system twin: suite `syscore` now drives listeners
+# (add / drop / tweened or modulator-linked position and orientation) and spatial sub-tracks (nested, with effects,
+# sends, sounds, `Value::FromListenerDistance` parameters) through the public API next to everything else, and the
+# twin's spatial hook is the real spatial computation of Model/Spatial.lean; Props/C15_system.lean lifts the per-track
+# C15 results to the whole-system model.
+PROPS["C15"]["suites"] += [{"name": "syscore", "quick": 400, "thorough": 8000}]
+PROPS["C15"]["level_text"] += (
+    " INSIDE THE WHOLE SYSTEM (suite syscore + Props/C15_system.lean): the whole-system model's spatial hook is this "
+    "very computation and listeners live in its environment (modulators -> clocks -> listeners -> mixer); complete scenes "
+    "mixing spatial and plain tracks, static sounds, effects, sends, clocks and modulators, with listener-distance-mapped "
+    "volumes / effect / sound parameters, nested spatial tracks and dropped listeners are bit-exact against kira through "
+    "the public API; proved for that model: a spatial track whose listener is absent (dropped or never added) outputs "
+    "exact silence, adds nothing to its parent's bus and feeds no send (C15_system_no_listener_silent, "
+    "C15_system_dropped_listener_absent); with the listener present its signal is track gain x mono mix x distance "
+    "amplitude x ear gain of its subtree's signal, frame by frame (C15_system_level_product); every track at any depth "
+    "looks listeners up in the environment's arena and the innermost spatial track's distance wins "
+    "(C15_system_listener_lookup)")
